@@ -19,16 +19,18 @@ exercised only through the listed known findings, each the literal witness of a 
 from __future__ import annotations
 
 import ast as pyast
+import atexit
 import concurrent.futures as cf
 import json
 import os
 import subprocess
 import sys
+import threading
 from pathlib import Path
 from typing import Any, Dict, List, Optional, Tuple
 
 ID = "C07"
-LEAN_MODULES = ["FaxVerif.C07.Theorems"]
+LEAN_MODULES = ["FaxVerif.C07.Theorems", "FaxVerif.Generated.C07Defaults"]  # the driver reads the generated tables: build them too
 LEAN_SOURCES = ["FaxVerif/C07", "FaxVerif/Generated/C07Defaults.lean"]
 DRIVER = "FaxVerif/C07/Driver.lean"
 THEOREMS = [
@@ -56,6 +58,7 @@ THEOREMS = [
     "FaxVerif.C07.leak_counterexample_found_md",
     "FaxVerif.C07.leak_counterexample_job_blocks",
     "FaxVerif.C07.leak_counterexample_extended_md",
+    "FaxVerif.C07.leak_counterexample_name_counter",
 ]
 RULE = (
     "case = (history of <=8 (quick) / <=14 (thorough) operations, probe): operations are `new executor` of any of the 3 "
@@ -78,6 +81,7 @@ ASSUMPTIONS = [
     "queries are handled as (add_extended_md;) apply_ast_transformations; write_cpp_files on one executor, one after the other (no interleaving, no threads)",
     "every query arrives as a freshly parsed AST (no AST object is shared between two translations)",
     "generated names only need to be consistent: results are compared up to one bijective renumbering of identifiers that end in digits",
+    "the names one translation generates do not collide (unique_name = name ++ index is not injective, e.g. columns `x1` and `x`: theorem leak_counterexample_name_counter and the listed finding; the catalogue queries have no such column names)",
     "extended metadata prototypes have one class per key (executor maps type(prototype) back to its key)",
     "nobody calls cpp_functions.add_function_mapping / mutates the backend collection tables at run time (not reachable from a query)",
 ]
@@ -236,7 +240,7 @@ def gen_extras(rng, b: str, avoid_keys, avoid_tops, ok_intent: bool, allow_job=T
 
 def gen_case(rng, tier: str) -> Dict[str, Any]:
     b = rng.choice(["atlas", "atlas", "cms_aod", "cms_miniaod"])
-    eligible = [k for k, v in CATALOG.items() if v["b"] == b]
+    eligible = [k for k, v in CATALOG.items() if v["b"] == b and (v.get("end", "ok") == "ok") == (rng.random() < 0.8)] or [k for k, v in CATALOG.items() if v["b"] == b]
     pq = rng.choice(eligible)
     pc = CATALOG[pq]
     K = [list(k) for k in pc["keys"]]
@@ -258,7 +262,7 @@ def gen_case(rng, tier: str) -> Dict[str, Any]:
     n = rng.randint(1, nmax)
     hist: List[Dict[str, Any]] = [{"op": "new", "b": b}] if (on_existing or rng.random() < 0.7) else []
     backs: List[str] = [o["b"] for o in hist]
-    mixed = rng.random() < 0.35
+    mixed = rng.random() < 0.45
     e0 = 0 if on_existing else None
     kinds_probe = {m["metadata_type"] for m in probe_md if m.get("metadata_type") in XKINDS}
     was_reset: Dict[int, bool] = {}  # executors on which a translation was meant to succeed (they own their dict)
@@ -346,8 +350,45 @@ def _sub(mode: str, payload: Dict[str, Any]) -> Dict[str, Any]:
     return json.loads(p.stdout)
 
 
+_tls = threading.local()
+_servers: List[subprocess.Popen] = []
+
+
+def _server() -> subprocess.Popen:
+    sv = getattr(_tls, "server", None)
+    if sv is None or sv.poll() is not None:
+        sv = subprocess.Popen([PY, str(HARNESS), "serve"], stdin=subprocess.PIPE, stdout=subprocess.PIPE, text=True, env=dict(os.environ))
+        _tls.server = sv
+        _servers.append(sv)
+    return sv
+
+
+def _close_servers():
+    for sv in _servers:
+        try:
+            sv.stdin.close()
+            sv.wait(timeout=5)
+        except Exception:
+            sv.kill()
+    _servers.clear()
+
+
+atexit.register(_close_servers)
+
+
 def run_history(case: Dict[str, Any]) -> Dict[str, Any]:
-    return _sub("history", case)
+    """the history (and probe) in ONE process of its own, started from the state of a new interpreter: a child
+    forked from a server that has only imported the package (tools/c07_harness/impl.py `serve`)"""
+    try:
+        sv = _server()
+        sv.stdin.write(json.dumps(case) + "\n")
+        sv.stdin.flush()
+        line = sv.stdout.readline()
+        if line.strip():
+            return json.loads(line)
+    except Exception:
+        pass
+    return _sub("history", case)  # the server died: a plain subprocess
 
 
 def run_fresh(probe: Dict[str, Any]) -> Dict[str, Any]:
@@ -673,7 +714,7 @@ def known_stream(ctx):
             ctx.broken.append({"kind": "witness-drift", "finding": e["key"][:80], "theorem_witness": w.get("expected"), "replayed": w.get("got")})
         if not g.get("holds", False):
             if e["status"] == "known":
-                if a.get("clean") and a.get("allBenign"):
+                if a.get("clean") and a.get("allBenign") and not e["input"].get("model_blind"):
                     # the implementation leaks where the model says nothing is left behind: the tie is broken
                     ctx.disagreement("known-finding-not-predicted-by-model", c, "clean", g.get("why"))
                 ctx.violation(key=e["key"], what=e["what"], case=c, observed=g.get("why"))
@@ -681,15 +722,36 @@ def known_stream(ctx):
                 ctx.violation(key="regressed:" + e["key"], what="a finding recorded as fixed fails again: " + e["what"], case=c, observed=g.get("why"), how="./check C07 --replay <this file>")
 
 
+def uname_stream(ctx):
+    """tie of `uniqueName` (Model.lean) to cpp_vars.unique_name"""
+    import func_adl_xAOD.common.cpp_vars as cvars
+
+    cases = [(n, i, c) for n in ["x", "x1", "col1", "i_obj", "agg_7", ""] for i in [0, 1, 9, 10, 11, 99, 100, 12345] for c in (False, True)]
+    got = []
+    keep = cvars.unique_var_index
+    for n, i, c in cases:
+        cvars.unique_var_index = i
+        got.append(cvars.unique_name(n, is_class_var=c))
+        if cvars.unique_var_index != i + 1:
+            ctx.disagreement("unique_name-advances-by-one", {"name": n, "index": i}, i + 1, cvars.unique_var_index)
+    cvars.unique_var_index = keep
+    ans = ctx.driver(DRIVER, [{"op": "uname", "name": n, "idx": i, "cls": c} for n, i, c in cases])
+    for (n, i, c), g, a in zip(cases, got, ans):
+        ctx.count("stream:unique_name")
+        if "bad" not in a and a.get("name") != g:
+            ctx.disagreement("unique_name", {"name": n, "index": i, "is_class_var": c}, a.get("name"), g)
+
+
 def run(ctx):
     import vlib
 
     canary(ctx)
+    uname_stream(ctx)
     known_stream(ctx)
     corpus = [{"history": c["history"], "probe": c["probe"]} for c in vlib.corpus_cases(ID)]
     if corpus:
         evaluate(ctx, corpus, "corpus")
-    n = 240 if ctx.tier == "quick" else 3000
+    n = 200 if ctx.tier == "quick" else 2400
     chunk = 160
     done = 0
     while done < n:
